@@ -775,6 +775,7 @@ def expand_universes() -> List[Tuple[Grammar, str]]:
     return res
 
 
+@lru_cache(maxsize=None)
 def grammars(family: str) -> Tuple[Grammar, ...]:
     """Proper grammars in which every nonterminal is reachable from the first.
     'one'   : 1 nonterminal, <= 2 alternatives of <= 3 symbols over {a, b, N0}
@@ -782,6 +783,10 @@ def grammars(family: str) -> Tuple[Grammar, ...]:
     'two_b' : 2 nonterminals, <= 2 alternatives of <= 2 symbols over {a, b, N0, N1}
     'three' : 3 nonterminals, the first two with <= 2 alternatives of <= 2 symbols over {a, N0, N1, N2}, the third with 1
     """
+    if family == "two_b_s":  # every 6th grammar of 'two_b' (about 3 000)
+        return grammars("two_b")[::6]
+    if family == "three_s":  # every 80th grammar of 'three' (about 2 000)
+        return grammars("three")[::80]
     res: List[Grammar] = []
 
     def nts(symbols, max_len, max_alts=2):
